@@ -1,8 +1,49 @@
 (** C11 — property theorems (statements only; proofs by [exact]). *)
 From Coq Require Import ZArith.
-From RlibV Require Import C11.Model C11.Proofs.
+From RlibV Require Import C11.Model C11.Corr C11.Trace C11.Proofs C11.ProofsEgcd C11.ProofsLcm C11.ProofsCrt C11.ProofsCorr.
 Open Scope Z_scope.
 
 (** gcd is the non-negative greatest common divisor for operands of either sign, gcd 0 0 = 0 *)
 Theorem c11_gcd : forall a b : Z, Z.abs b < 2 ^ 130 -> gcd a b = Some (Z.gcd a b).
 Proof. exact gcd_correct. Qed.
+
+(** whatever egcd returns is a solution of a*x + b*y = c (no magnitude bound: partial correctness) *)
+Theorem c11_egcd_sound : forall a b c x y : Z, egcd a b c = Ret (Some (x, y)) -> a * x + b * y = c.
+Proof. exact egcd_sound. Qed.
+
+(** egcd does not panic unless a = b = 0, and answers None exactly when gcd a b does not divide c *)
+Theorem c11_egcd_complete : forall a b c : Z, (a, b) <> (0, 0) -> Z.abs a < 2 ^ 130 ->
+  egcd a b c <> Panic /\ (egcd a b c = Ret None <-> ~ (Z.gcd a b | c)).
+Proof. exact egcd_complete. Qed.
+
+(** the corner outside the quantifier: division by zero *)
+Theorem c11_egcd_zero_panics : forall c : Z, egcd 0 0 c = Panic.
+Proof. exact egcd_zero_panics. Qed.
+
+(** lcm is the non-negative least common multiple unless both operands are zero *)
+Theorem c11_lcm : forall a b : Z, (a, b) <> (0, 0) -> Z.abs b < 2 ^ 130 -> lcm a b = Some (Z.lcm a b).
+Proof. exact lcm_correct. Qed.
+
+(** the corner outside the quantifier: lcm 0 0 divides by gcd 0 0 = 0 *)
+Theorem c11_lcm_zero_panics : lcm 0 0 = None.
+Proof. exact lcm_zero_panics. Qed.
+
+(** crt: for reduced residues and positive moduli, the result is the representative in [0, lcm) when the
+    congruences are compatible, None otherwise *)
+Theorem c11_crt : forall a1 m1 a2 m2 : Z,
+  1 <= m1 < 2 ^ 130 -> 1 <= m2 < 2 ^ 130 -> 0 <= a1 < m1 -> 0 <= a2 < m2 ->
+  ((Z.gcd m1 m2 | a2 - a1) ->
+     exists x, crt a1 m1 a2 m2 = Ret (Some x) /\ 0 <= x < Z.lcm m1 m2 /\ x mod m1 = a1 /\ x mod m2 = a2)
+  /\ (~ (Z.gcd m1 m2 | a2 - a1) -> crt a1 m1 a2 m2 = Ret None).
+Proof. exact crt_correct. Qed.
+
+(** the representative in [0, lcm) is unique *)
+Theorem c11_crt_unique : forall m1 m2 x y : Z, 1 <= m1 -> 1 <= m2 ->
+  0 <= x < Z.lcm m1 m2 -> 0 <= y < Z.lcm m1 m2 ->
+  x mod m1 = y mod m1 -> x mod m2 = y mod m2 -> x = y.
+Proof. exact crt_unique. Qed.
+
+(** on in-scope cases (magnitudes below 2^130), an observation that agrees with the model satisfies the specification:
+    the batch lemma about the model carries the spec to the implementation by proof *)
+Theorem c11_model_implies_spec : forall c : case, in_scope c -> model_check c = true -> spec_check c = true.
+Proof. exact model_implies_spec. Qed.
